@@ -70,6 +70,20 @@ ModelStep(e) ==
 \* result class as the model names it
 LoggedRes(e) == IF e.res = "err" THEN e.err ELSE e.res
 
+\* the model takes the step and predicts the recorded result
+Conforms(e) == ModelStep(e) /\ (e.ev = "Sign" => last'.res = LoggedRes(e))
+
+\* the code did something else: the model adopts the recorded state so that the rest of the trace is still examined
+FromDisk(d) == [msg |-> [h |-> d.h, r |-> d.r, s |-> d.s, bid |-> d.bid], ts |-> d.ts, signed |-> d.signed]
+Resync(e) ==
+  /\ disk' = FromDisk(e.disk)
+  /\ up' = (e.ev # "Sign" \/ e.res # "crash")
+  /\ mem' = IF up' THEN FromDisk(e.disk) ELSE NoRec
+  /\ pend' = NoRec
+  /\ released' = IF e.ev = "Sign" /\ e.res = "ok"
+                  THEN released \cup {[msg |-> [h |-> e.h, r |-> e.r, s |-> e.s, bid |-> e.bid], ts |-> e.rts]} ELSE released
+  /\ last' = [req |-> NoMsg, ts |-> 0, res |-> "resync", sig |-> NoRec]
+
 \* C20 predicates on recorded values; each returns the set of violated names
 Checks(e) ==
   IF e.ev = "Reload" THEN
@@ -114,14 +128,14 @@ Checks(e) ==
 TraceNext ==
   /\ l <= Len(TraceLog)
   /\ LET e == TraceLog[l] IN
-     /\ ModelStep(e)
+     /\ \/ Conforms(e) /\ diff' = diff
+        \/ /\ ~ENABLED Conforms(e)
+           /\ Resync(e)
+           /\ diff' = Append(diff, [line |-> l, predicted |-> "another result (the model is re-synchronised)", recorded |-> LoggedRes(e)])
      /\ l' = l + 1
      /\ LET cs == Checks(e) IN
         viol' = IF cs = {} THEN viol
                 ELSE Append(viol, [line |-> l, what |-> cs])
-     /\ diff' = IF e.ev = "Sign" /\ last'.res # LoggedRes(e)
-                  THEN Append(diff, [line |-> l, predicted |-> last'.res, recorded |-> LoggedRes(e)])
-                  ELSE diff
      /\ rel' = IF e.ev = "Reset" THEN {}
                ELSE IF e.ev = "Sign" /\ e.res = "ok"
                  THEN rel \cup {[h |-> e.h, r |-> e.r, s |-> e.s, bid |-> e.bid, rts |-> e.rts, sig |-> e.sig]}
